@@ -55,9 +55,11 @@ var opSpecs = []opSpec{
 	{"lookup_get", "path", 4, 1},
 	{"lookup_delete", "path", 4, 1},
 	{"lookup_list", "none", 1, 1},
-	{"bulk", "body", 6, 4},
+	{"bulk", "body", 6, 8},
 	{"doc_index", "path", 3, 4},
+	{"doc_create", "path", 3, 3},
 	{"put_index", "path", 3, 2},
+	{"put_mapping", "path", 2, 3},
 	{"delete_index", "path", 4, 2},
 	{"head_index", "path", 1, 1},
 	{"es_search", "path", 3, 4},
@@ -84,7 +86,10 @@ var opSpecs = []opSpec{
 	{"folder_count", "path", 1, 1},
 	{"otsdb_put", "body", 5, 3},
 	{"prom_write", "body", 4, 3},
-	{"splunk_hec", "body", 3, 1},
+	{"splunk_hec", "body", 3, 2},
+	{"otlp_logs", "body", 6, 4},
+	{"otlp_traces", "body", 2, 1},
+	{"loki_push", "body", 2, 2},
 	{"flush", "none", 2, 1},
 	{"rotate", "none", 2, 1},
 	{"mflush", "none", 2, 1},
@@ -242,6 +247,10 @@ func requests(st step, name string) []httpReq {
 			action = "create"
 		}
 		body := fmt.Sprintf("{%q:{\"_index\":%s}}\n{\"a\":1,\"msg\":\"c19 doc\",\"timestamp\":%d}\n", action, jstr(name), tsMs)
+		if st.V&4 != 0 { // one request with several batches: harmless index, the name, harmless index again
+			ok := fmt.Sprintf("{%q:{\"_index\":\"c19bulkmix\"}}\n{\"a\":2,\"msg\":\"c19 mixed\",\"timestamp\":%d}\n", action, tsMs)
+			body = ok + body + body + ok
+		}
 		return []httpReq{{Server: srv, Method: "POST", Path: "/elastic/_bulk", CT: jsonCT, Body: []byte(body)}}
 	case "doc_index":
 		path := "/elastic/" + p + "/_doc"
@@ -253,6 +262,25 @@ func requests(st step, name string) []httpReq {
 			}
 		}
 		return []httpReq{{Server: "ingest", Method: method, Path: path, CT: jsonCT, Body: []byte(fmt.Sprintf(`{"a":1,"msg":"c19 single","timestamp":%d}`, tsMs))}}
+	case "doc_create": // the other single-document routes of the ingest server (ES 7 layout)
+		method, verb := "PUT", "_create"
+		switch st.V % 3 {
+		case 1:
+			method = "POST"
+		case 2:
+			method, verb = "POST", "_update"
+		}
+		return []httpReq{{Server: "ingest", Method: method, Path: "/elastic/" + p + "/" + verb + "/" + p, CT: jsonCT,
+			Body: []byte(fmt.Sprintf(`{"a":1,"msg":"c19 single %s","timestamp":%d}`, verb, tsMs))}}
+	case "put_mapping": // the other registrations of ProcessPutIndex on the ingest server
+		mapping := []byte(`{"mappings":{"properties":{"a":{"type":"long"}}}}`)
+		switch st.V % 3 {
+		case 1:
+			return []httpReq{{Server: "ingest", Method: "PUT", Path: "/elastic/" + p + "/_mapping/" + p, CT: jsonCT, Body: mapping}}
+		case 2:
+			return []httpReq{{Server: "ingest", Method: "HEAD", Path: "/elastic/" + p}}
+		}
+		return []httpReq{{Server: "ingest", Method: "PUT", Path: "/elastic/" + p + "/_mapping", CT: jsonCT, Body: mapping}}
 	case "put_index":
 		srv := q
 		if st.V&1 != 0 {
@@ -393,7 +421,16 @@ func requests(st step, name string) []httpReq {
 			Hdr: map[string]string{"Content-Encoding": "snappy", "X-Prometheus-Remote-Write-Version": "0.1.0"}, Body: snappy.Encode(nil, pb)}}
 	case "splunk_hec":
 		body := fmt.Sprintf(`{"index":%s,"event":{"a":1,"msg":"c19 hec"},"time":%d}`, jstr(name), tsSec)
+		if st.V&1 != 0 { // several events in one request: harmless index first, then the name (two batches)
+			body = fmt.Sprintf(`{"index":"c19hecmix","event":{"a":2,"msg":"c19 hec mixed"},"time":%d}`, tsSec) + "\n" + body + body
+		}
 		return []httpReq{{Server: "ingest", Method: "POST", Path: "/services/collector/event", CT: jsonCT, Body: []byte(body)}}
+	case "otlp_logs":
+		return []httpReq{otlpLogsRequest(st, name)}
+	case "otlp_traces":
+		return []httpReq{otlpTracesRequest(name)}
+	case "loki_push":
+		return []httpReq{lokiPushRequest(st, name)}
 	}
 	return nil
 }
